@@ -8,6 +8,7 @@ From PowHsm Require Import Proofs.CertProofs.
 From PowHsm Require Import Proofs.C07.
 From PowHsm Require Import Gen.Src.
 From PowHsm Require Import Proofs.SrcEquivCert.
+From PowHsm Require Import Proofs.SrcLiftCert.
 Open Scope N_scope.
 
 (* offsets computed from the generated struct layouts: report data = bytes 320..384 of a report body, 368..432 of a quote; shorter buffers have none *)
@@ -250,5 +251,45 @@ Theorem C07_source_walk_is_model :
          src_HSMCertificateV2__validate_and_get_values fuel call_method (cert_pv c) root_pv =
          spec_results link_ok value_of tweak_of c (c_targets c) [].
 Proof. exact (@src_validate_v2_ok). Qed.
+
+(* hence: the source reports an SGX target valid exactly when every link on its path to the root of trust holds *)
+Theorem C07_source_target_reported_valid_iff :
+  forall (link_ok : celem -> certifier -> bool) (value_of tweak_of : celem -> pr pv)
+           (root_pv : pv) (call_method : string -> pv -> list pv -> pr pv) 
+           (c : cert) (fuel : nat) (d : list (str * pv)) (tg : json),
+         oracle_ok link_ok value_of tweak_of root_pv call_method ->
+         c_version c = 2%Z ->
+         str_named c ->
+         targets_resolve link_ok c ->
+         (S (Datatypes.length (c_elems c)) <= fuel)%nat ->
+         src_HSMCertificateV2__validate_and_get_values fuel call_method (cert_pv c) root_pv =
+         POk (VDict d) ->
+         In tg (c_targets c) ->
+         (exists val tw : pv, vassoc (key_str tg) d = Some (VList [VBool true; val; tw])) <->
+         (exists (p : list celem) (e : celem),
+            target_path c tg = Some p /\
+            tbl_get tg (c_elems c) = Some e /\ links_hold link_ok ByRoot p).
+Proof. exact (@src_v2_target_reported_valid_iff). Qed.
+
+(* and invalid with the name of the first failing element *)
+Theorem C07_source_target_reported_invalid_iff :
+  forall (link_ok : celem -> certifier -> bool) (value_of tweak_of : celem -> pr pv)
+           (root_pv : pv) (call_method : string -> pv -> list pv -> pr pv) 
+           (c : cert) (fuel : nat) (d : list (str * pv)) (tg n : json),
+         oracle_ok link_ok value_of tweak_of root_pv call_method ->
+         c_version c = 2%Z ->
+         str_named c ->
+         targets_resolve link_ok c ->
+         (S (Datatypes.length (c_elems c)) <= fuel)%nat ->
+         src_HSMCertificateV2__validate_and_get_values fuel call_method (cert_pv c) root_pv =
+         POk (VDict d) ->
+         In tg (c_targets c) ->
+         is_jstr_b n = true ->
+         vassoc (key_str tg) d = Some (VList [VBool false; of_json n]) <->
+         (exists (p pre : list celem) (x : celem) (post : list celem),
+            target_path c tg = Some p /\
+            p = pre ++ x :: post /\
+            links_hold link_ok ByRoot pre /\ link_ok x (cf_after ByRoot pre) = false /\ n = ce_name x).
+Proof. exact (@src_v2_target_reported_invalid_iff). Qed.
 
 Example C07_nonvacuous : True. Proof. exact I. Qed. (* Module Examples of Proofs/C07.v, closed by vm_compute through load_cert + validate_all with toy oracles: the 4-element and depth-2 chains accepted; custom-data mismatch, changed byte, short message, foreign signature, auth-data mismatch, non-P-256 issuer, expired, not yet valid, bad X.509 signature rejected at the right element *)
